@@ -31,18 +31,18 @@ def cpu():
 
 def run(rep):
     # (a) the budget model
-    res = tlc.run(rep.pid, "RegexVM", VM_DESIGN, timeout=1200, tag="vm_design", workers=8)
+    res = tlc.run(rep.pid, "RegexVM", VM_DESIGN, timeout=3600, tag="vm_design", workers=8)
     rep.add_tlc("RegexVM(design: budgets in every loop kind)", res)
     if res.distinct < 50000:
         raise Machinery("RegexVM design model explored only %d states" % res.distinct)
-    res2 = tlc.run(rep.pid, "RegexVM", VM_ASIS, timeout=1200, tag="vm_asis", workers=8)
+    res2 = tlc.run(rep.pid, "RegexVM", VM_ASIS, timeout=3600, tag="vm_asis", workers=8)
     rep.add_tlc("RegexVM(as-is: sub-matchers without step budget)", res2, must_hold=False)
     if res2.violated != ["SubStepBound"]:
         raise Machinery("as-is RegexVM model: expected exactly SubStepBound to fail, got %r" % (res2.violated,))
     rep.notes["model_asis"] = "SubStepBound fails when the sub-matcher loops do not compare their step count with step_limit (finding F-C10-sub-no-step-limit)"
-    res3 = tlc.run(rep.pid, "C10", LAW_CFG, timeout=1200, tag="laws")
+    res3 = tlc.run(rep.pid, "C10", LAW_CFG, timeout=3600, tag="laws")
     rep.add_tlc("C10.AcceptorLaws(strings<=3)", res3)
-    res = tlc.run(rep.pid, "C10", ENUM_CFG, env={"TIER": rep.tier}, timeout=600, tag="enum")
+    res = tlc.run(rep.pid, "C10", ENUM_CFG, env={"TIER": rep.tier}, timeout=3600, tag="enum")
     rep.add_tlc("C10.Enum", res)
     kinds = {}
     for r in res.records:
@@ -119,7 +119,7 @@ def construction(rep, strings, flags, specials):
         batches = [{"id": k, "items": items[k:k + 400]} for k in range(0, len(items), 400)]
         rnd2 = random.Random(1)
         rnd2.shuffle(batches)
-        results = engine.run_cases(rep.pid, batches, driver="checks.c10_driver:construct_batch", tag="eng_cons")
+        results = engine.run_cases(rep.pid, batches, driver="checks.c10_driver:construct_batch", tag="eng_cons", timeout=14400)
         tE += cpu() - c0
         byid = {it["id"]: it for it in items}
         recs = []
@@ -137,7 +137,7 @@ def construction(rep, strings, flags, specials):
         if len(recs) != len(items):
             raise Machinery("engine returned %d results for %d constructions" % (len(recs), len(items)))
         c0 = cpu()
-        verdicts, st, tr, wall = tlc.judge(rep.pid, "C10", recs, CONS_CFG, tag="judge_cons", timeout=3000)
+        verdicts, st, tr, wall = tlc.judge(rep.pid, "C10", recs, CONS_CFG, tag="judge_cons", timeout=14400)
         tJ += cpu() - c0
         rep.add_judge(0, st, tr)
         got = {v["id"]: v for v in verdicts}
@@ -167,7 +167,7 @@ def construction(rep, strings, flags, specials):
                     else:
                         report(rep, it, chan, outs[c], v["cls"], "" if b.startswith("!") else b, b)
         if pending:
-            wv, st, tr, wall = tlc.judge(rep.pid, "C10", list(why.values()), WHY_CFG, tag="judge_why", timeout=3000)
+            wv, st, tr, wall = tlc.judge(rep.pid, "C10", list(why.values()), WHY_CFG, tag="judge_why", timeout=14400)
             rep.add_judge(0, st, tr)
             devof = {v["id"]: v["dev"] for v in wv}
             for it, chan, out, cls, key in pending:
@@ -206,13 +206,13 @@ def matching(rep, families):
     order = cases[:]
     rnd.shuffle(order)
     c0 = cpu()
-    results = engine.run_cases(rep.pid, order, driver="checks.c10_driver:run_driver", tag="eng_run", procs=16)
+    results = engine.run_cases(rep.pid, order, driver="checks.c10_driver:run_driver", tag="eng_run", procs=16, timeout=14400)
     rep.notes["matching_engine_cpu_s"] = round(cpu() - c0, 1)
     recs = []
     for r in results:
         c = cases[r["id"]]
         recs.append(dict(r, fam=c["fam"], n=c["n"], mode=c["mode"]))
-    verdicts, st, tr, wall = tlc.judge(rep.pid, "C10", recs, RUN_CFG, tag="judge_run", shards=4, timeout=600)
+    verdicts, st, tr, wall = tlc.judge(rep.pid, "C10", recs, RUN_CFG, tag="judge_run", shards=4, timeout=3600)
     got = {v["id"]: v for v in verdicts}
     if len(got) != len(recs):
         raise Machinery("judge returned %d verdicts for %d runs" % (len(got), len(recs)))
